@@ -181,4 +181,7 @@ NUMS = '''def masks() -> int:
 '''
 TREES_ONLY = {'shape_nums': NUMS}
 
-ALL = {'shape_literals': LITERALS, 'shape_vars': VARS, 'shape_uses': USES, 'shape_openblock': OPENBLOCK, 'shape_generic': GENERIC, 'shape_pairs': PAIRS, 'shape_flow': FLOW, 'shape_doconly': DOCONLY, 'shape_docfirst': DOCFIRST}
+# comments with blanks / tabs in front of the line break (the COMMENT terminal runs up to the line break)
+COMMENTS = ("# head comment   \n\ndef cm(a: int) -> int:\n\t# inner comment \t \n\tb = a + 1\n\treturn b\n\n# between  \n\nclass CmK:\n\t# in class\t\n\tn: int = 0\n")
+
+ALL = {'shape_comments': COMMENTS, 'shape_literals': LITERALS, 'shape_vars': VARS, 'shape_uses': USES, 'shape_openblock': OPENBLOCK, 'shape_generic': GENERIC, 'shape_pairs': PAIRS, 'shape_flow': FLOW, 'shape_doconly': DOCONLY, 'shape_docfirst': DOCFIRST}
